@@ -17,6 +17,7 @@ class AttrWrite:
     event: Event
     fi: FuncInfo
     via: tuple
+    key: str | None = None  # literal first-level key: self.attr[KEY]...
 
     @property
     def loc(self):
@@ -175,7 +176,7 @@ class Lifecycle:
                                     k = "inplace"
                                 elif kind != "overwrite":
                                     k = "inplace"
-                            out.append(AttrWrite(b[2][0], k, ev, f, via))
+                            out.append(AttrWrite(b[2][0], k, ev, f, via, self._first_key(ev, selfname, b[2][0])))
                 elif ev.kind == "call":
                     for t in ev.data.get("targets") or []:
                         if isinstance(t.node, ast.Lambda):
@@ -192,6 +193,25 @@ class Lifecycle:
                                 if b[0] == "attr" and b[1] == selfname and b[2]:
                                     out.append(AttrWrite(b[2][0], "inplace", ev, f, via))
         return out
+
+    @staticmethod
+    def _first_key(ev: Event, selfname: str, attr: str):
+        """Text of K in a write through ``self.<attr>[K]...`` (None when the
+        write does not go through a literal first-level subscript)."""
+        tgt = ev.data.get("target")
+        node = tgt
+        found = None
+        while isinstance(node, (ast.Subscript, ast.Attribute, ast.Call)):
+            if isinstance(node, ast.Subscript):
+                base = node.value
+                if isinstance(base, ast.Attribute) and base.attr == attr and isinstance(base.value, ast.Name) and base.value.id == selfname:
+                    found = ast.unparse(node.slice)
+                node = node.value
+            elif isinstance(node, ast.Attribute):
+                node = node.value
+            else:
+                node = node.func
+        return found
 
     @staticmethod
     def _kind(ev: Event) -> str:
